@@ -640,11 +640,20 @@ func storyDriver(seed int64, n int, emit func(any)) error {
 		}
 		ev := map[string]any{"ev": "Execute", "outcome": real, "reached": executed != nil}
 		if executed != nil {
+			// which argument point the executed invocation carries: told by its x argument, and every other argument of that
+			// point must be there too (compared as data: Args.Equals is sensitive to the order of nested map keys)
 			arg := 9
-			for p := 0; p < 3; p++ {
-				if executed.Arguments().Equals(concreteArgs(p).ReadOnly()) {
-					arg = p
-					break
+			if xn, err := executed.Arguments().GetNode("x"); err == nil {
+				if xv, err := xn.AsInt(); err == nil && xv >= 0 && xv <= 2 {
+					want := concreteArgs(int(xv)).ReadOnly()
+					same := true
+					for k, v := range want.Iter() {
+						got, err := executed.Arguments().GetNode(k)
+						same = same && err == nil && nodesEqual(got, v)
+					}
+					if same {
+						arg = int(xv)
+					}
 				}
 			}
 			xsub := "Undef"
